@@ -317,73 +317,120 @@ func runC13(c *c13Case) (v *vcommon.Violation, nontrivial, inconclusive bool) {
 		if class != "" {
 			return bad(class, "%s", msg), nontrivial, false
 		}
-		live = cl.live()
-		// previous owners still listed must hold data
-		for p := uint64(0); p < uint64(c.Partitions); p++ {
-			owners := live[0].db.primary.PartitionByID(p).Owners()
-			for _, o := range owners[:len(owners)-1] {
-				m := cl.byName(o.Name)
-				if m == nil {
-					continue
-				}
-				if m.db.primary.PartitionByID(p).Length() == 0 {
-					return bad("empty-previous-owner", "partition %d still lists %s as a previous owner although it holds no data for it (owners %v)", p, o.Name, memberNames(owners)), nontrivial, false
-				}
+		// The remaining comparisons read several members (and a client) one after the other while the balancer
+		// may still be moving data and the coordinator keeps pruning emptied owners with every push. They are
+		// made on a quiet snapshot only (no routing change on any member while the attempt ran), and a finding
+		// must persist over several attempts that are more than two routing pushes apart.
+		var vclass, vmsg string
+		confirmed := 0
+		for attempt := 0; attempt < 12 && confirmed < 3; attempt++ {
+			if attempt > 0 {
+				time.Sleep(500 * time.Millisecond)
 			}
+			before := allSnapshots(cl)
+			cls, msg := viewCheck(ctx, cl, c, name, i)
+			if before == "" || before != allSnapshots(cl) {
+				continue // not quiet: does not count
+			}
+			if cls == "" {
+				vclass = ""
+				break
+			}
+			if cls == vclass || vclass == "" {
+				confirmed++
+			} else {
+				confirmed = 1
+			}
+			vclass, vmsg = cls, msg
 		}
-		// what clients see: CLUSTER.ROUTINGTABLE and CLUSTER.MEMBERS from every member
-		coord = cl.coordinator()
-		for _, m := range live {
-			cc, err := NewClusterClient([]string{m.name}, WithLogger(log.New(io.Discard, "", 0)))
-			if err != nil {
-				return nil, nontrivial, true
-			}
-			rt, err := cc.RoutingTable(ctx)
-			if err != nil {
-				_ = cc.Close(ctx)
-				return nil, nontrivial, true
-			}
-			for p := uint64(0); p < uint64(c.Partitions); p++ {
-				wantP := strings.Join(namesInOrder(m.db.primary.PartitionByID(p).Owners()), ",")
-				wantB := strings.Join(namesInOrder(m.db.backup.PartitionByID(p).Owners()), ",")
-				r, ok := rt[p]
-				if !ok || strings.Join(r.PrimaryOwners, ",") != wantP || strings.Join(r.ReplicaOwners, ",") != wantB {
-					_ = cc.Close(ctx)
-					return bad("client-table-differs", "CLUSTER.ROUTINGTABLE from %s reports owners %v / backups %v for partition %d, the member holds %s / %s", m.name, r.PrimaryOwners, r.ReplicaOwners, p, wantP, wantB), nontrivial, false
-				}
-			}
-			members, err := cc.Members(ctx)
-			if err != nil {
-				_ = cc.Close(ctx)
-				return nil, nontrivial, true
-			}
-			if len(members) != len(live) {
-				_ = cc.Close(ctx)
-				return bad("members-list", "CLUSTER.MEMBERS from %s lists %d members, %d are alive", m.name, len(members), len(live)), nontrivial, false
-			}
-			for _, mm := range members {
-				if mm.Coordinator != (mm.Name == coord.name) {
-					_ = cc.Close(ctx)
-					return bad("coordinator", "CLUSTER.MEMBERS from %s marks %s coordinator=%v; the oldest live member is %s", m.name, mm.Name, mm.Coordinator, coord.name), nontrivial, false
-				}
-			}
-			// every key maps to the same owner from this member and from a client of this member
-			for k := 0; k < 50; k++ {
-				key := fmt.Sprintf("key-%d-%d", i, k)
-				hkey := partitions.HKey(name, key)
-				memberOwner := m.db.primary.PartitionByHKey(hkey).Owner().Name
-				refOwner := live[0].db.primary.PartitionByHKey(hkey).Owner().Name
-				po := rt[hkey%uint64(c.Partitions)].PrimaryOwners
-				if memberOwner != refOwner || len(po) == 0 || po[len(po)-1] != memberOwner {
-					_ = cc.Close(ctx)
-					return bad("key-owner-differs", "key %q: owner %s on %s, %s on %s, %v for a client", key, memberOwner, m.name, refOwner, live[0].name, po), nontrivial, false
-				}
-			}
-			_ = cc.Close(ctx)
+		if vclass != "" && confirmed >= 3 {
+			return bad(vclass, "%s", vmsg), nontrivial, false
 		}
 		load()
 	}
 	return nil, nontrivial, false
+}
+
+// allSnapshots renders the routing view of every live member; "" if they differ.
+func allSnapshots(cl *vCluster) string {
+	var ref string
+	for i, m := range cl.live() {
+		s := routingSnapshot(m.db)
+		if i == 0 {
+			ref = s
+		} else if s != ref {
+			return ""
+		}
+	}
+	return ref
+}
+
+// viewCheck compares what clients obtain from every member with the members' own view.
+func viewCheck(ctx context.Context, cl *vCluster, c *c13Case, name string, step int) (string, string) {
+	live := cl.live()
+	// previous owners still listed must hold data
+	for p := uint64(0); p < uint64(c.Partitions); p++ {
+		owners := live[0].db.primary.PartitionByID(p).Owners()
+		for _, o := range owners[:len(owners)-1] {
+			m := cl.byName(o.Name)
+			if m == nil {
+				continue
+			}
+			if m.db.primary.PartitionByID(p).Length() == 0 {
+				return "empty-previous-owner", fmt.Sprintf("partition %d still lists %s as a previous owner although it holds no data for it (owners %v)", p, o.Name, memberNames(owners))
+			}
+		}
+	}
+	coord := cl.coordinator()
+	for _, m := range live {
+		cc, err := NewClusterClient([]string{m.name}, WithLogger(log.New(io.Discard, "", 0)))
+		if err != nil {
+			return "", ""
+		}
+		rt, err := cc.RoutingTable(ctx)
+		if err != nil {
+			_ = cc.Close(ctx)
+			return "", ""
+		}
+		for p := uint64(0); p < uint64(c.Partitions); p++ {
+			wantP := strings.Join(namesInOrder(m.db.primary.PartitionByID(p).Owners()), ",")
+			wantB := strings.Join(namesInOrder(m.db.backup.PartitionByID(p).Owners()), ",")
+			r, ok := rt[p]
+			if !ok || strings.Join(r.PrimaryOwners, ",") != wantP || strings.Join(r.ReplicaOwners, ",") != wantB {
+				_ = cc.Close(ctx)
+				return "client-table-differs", fmt.Sprintf("CLUSTER.ROUTINGTABLE from %s reports owners %v / backups %v for partition %d, the member holds %s / %s", m.name, r.PrimaryOwners, r.ReplicaOwners, p, wantP, wantB)
+			}
+		}
+		members, err := cc.Members(ctx)
+		if err != nil {
+			_ = cc.Close(ctx)
+			return "", ""
+		}
+		if len(members) != len(live) {
+			_ = cc.Close(ctx)
+			return "members-list", fmt.Sprintf("CLUSTER.MEMBERS from %s lists %d members, %d are alive", m.name, len(members), len(live))
+		}
+		for _, mm := range members {
+			if mm.Coordinator != (mm.Name == coord.name) {
+				_ = cc.Close(ctx)
+				return "coordinator", fmt.Sprintf("CLUSTER.MEMBERS from %s marks %s coordinator=%v; the oldest live member is %s", m.name, mm.Name, mm.Coordinator, coord.name)
+			}
+		}
+		// every key maps to the same owner from this member and from a client of this member
+		for k := 0; k < 50; k++ {
+			key := fmt.Sprintf("key-%d-%d", step, k)
+			hkey := partitions.HKey(name, key)
+			memberOwner := m.db.primary.PartitionByHKey(hkey).Owner().Name
+			refOwner := live[0].db.primary.PartitionByHKey(hkey).Owner().Name
+			po := rt[hkey%uint64(c.Partitions)].PrimaryOwners
+			if memberOwner != refOwner || len(po) == 0 || po[len(po)-1] != memberOwner {
+				_ = cc.Close(ctx)
+				return "key-owner-differs", fmt.Sprintf("key %q: owner %s on %s, %s on %s, %v for a client", key, memberOwner, m.name, refOwner, live[0].name, po)
+			}
+		}
+		_ = cc.Close(ctx)
+	}
+	return "", ""
 }
 
 func namesInOrder(ms []discovery.Member) []string {
